@@ -24,12 +24,13 @@ var spellings = []string{":Seen", ":SEEN", ":seen", ":Deleted", ":DELETED", ":de
 var flagKeys = []string{"SEEN", "UNSEEN", "DELETED", "UNDELETED", "FLAGGED", "UNFLAGGED", "ANSWERED", "UNANSWERED", "DRAFT", "UNDRAFT"}
 
 type driver struct {
-	rng    *rand.Rand
-	exists map[string]bool
-	next   map[string]int
-	count  [2]int
-	sel    [2]string
-	ro     [2]bool
+	rng     *rand.Rand
+	noPart1 bool // a message without section "1" has been appended somewhere
+	exists  map[string]bool
+	next    map[string]int
+	count   [2]int
+	sel     [2]string
+	ro      [2]bool
 }
 
 func poolCodes() [][]int {
@@ -267,6 +268,9 @@ func (d *driver) pick() []cmdT {
 			c.Op, c.Name = "STATUS", codes(d.pickName())
 		case r < 42:
 			c.Op, c.Name, c.Cat, c.Fl = "APPEND", codes(d.pickName()), 1+d.rng.Intn(len(cat.Messages)), d.flags(3)
+			if c.Cat == 7 {
+				d.noPart1 = true // from now on some mailbox may hold a message without section "1"
+			}
 			if sel != "" && d.rng.Intn(2) == 0 {
 				c.Name = codes(sel)
 			}
@@ -339,7 +343,11 @@ func (d *driver) pick() []cmdT {
 				c.Op = "FETCH"
 				c.It = item{Flags: d.rng.Intn(2) == 0, Uidi: d.rng.Intn(3) == 0, Size: d.rng.Intn(3) == 0, Date: d.rng.Intn(3) == 0, Peek: d.rng.Intn(4) != 0}
 				if d.rng.Intn(4) != 0 {
-					c.It.Sec = 1 + d.rng.Intn(7) // sections every message has
+					// sections every message has (a multipart without parts - entry 7 - has no section "1")
+					c.It.Sec = 1 + d.rng.Intn(6)
+					if !d.noPart1 && d.rng.Intn(7) == 0 {
+						c.It.Sec = 7
+					}
 					for _, ps := range cat.PartialSections {
 						if ps == c.It.Sec && d.rng.Intn(2) == 0 {
 							c.It.Pi = 1 + d.rng.Intn(len(cat.Partials))
